@@ -932,7 +932,7 @@ with match_compound (fuel : nat) (e : env) (p : path) (tag : option stag) (ids c
     if has_flag flags SEL_ROOT && negb (match_root p) then ret false else
     if has_flag flags SEL_SCOPE && negb (match_scope p) then ret false else
     if has_flag flags SEL_PLACEHOLDER_SHOWN && negb (match_placeholder_shown p) then ret false else
-    mdo b_nth <- match_nth f e p nth ;;;
+    mdo b_nth <- forallM (match_nth1 f e p) nth ;;;
     if negb b_nth then ret false else
     if has_flag flags SEL_EMPTY && negb (match_empty p) then ret false else
     mdo b_id <- lift (match ids with [] => Ok true | _ => match_id p ids end) ;;;
@@ -1002,13 +1002,13 @@ with match_relations (fuel : nat) (e : env) (p : path) (relation : sellist) : M 
       end
     end
   end
-with match_nth (fuel : nat) (e : env) (p : path) (nth : list snth) : M bool :=
+(* one An+B record; the records of a compound are a conjunction (forallM), evaluated in order *)
+with match_nth1 (fuel : nat) (e : env) (p : path) (n : snth) : M bool :=
   match fuel with
   | O => raise OutOfFuel
   | S f =>
-    match nth with
-    | [] => ret true
-    | SNth a var b of_type last s :: rest =>
+    match n with
+    | SNth a var b of_type last s =>
       let has_s := match sl_sels s with [] => false | _ => true end in
       mdo ok0 <- (if has_s then match_selectors f e p s else ret true) ;;;
       if negb ok0 then ret false
@@ -1027,10 +1027,10 @@ with match_nth (fuel : nat) (e : env) (p : path) (nth : list snth) : M bool :=
               mdo c1 <- (if has_s then match_selectors f e q s else ret true) ;;;
               if negb c1 then ret (false, path_eqb q p)
               else ret (negb of_type || match_nth_tag_type p q, path_eqb q p) in
-        mdo r <- nth_core classify a b var (Z.of_nat (length sibs)) walk_nodes ;;;
-        if r then match_nth f e p rest else ret false
+        nth_core classify a b var (Z.of_nat (length sibs)) walk_nodes
     end
   end.
+Definition match_nth (fuel : nat) (e : env) (p : path) (nth : list snth) : M bool := forallM (match_nth1 fuel e p) nth.
 
 (* ------------------------------------------------------------------ API level (CSSMatch.match/select/...) *)
 Definition match_el (fuel : nat) (e : env) (sels : sellist) (p : path) : M bool :=
